@@ -83,7 +83,18 @@ class PrefixSid(Attribute):
         return cls(sr_attrs=sr_attrs, packed=original)
 
     def json(self, compact: bool | None = None) -> str:
-        content: str = ', '.join(d.json() for d in self.sr_attrs)
+        # Every TLV renders as one member and a peer may send the same TLV twice: the object then had the
+        # same key twice. RFC 8669 3.1 gives a repeated TLV no meaning, the first one is the one rendered.
+        members: list[str] = []
+        keys: set[str] = set()
+        for d in self.sr_attrs:
+            member = d.json()
+            key = member.split(':', 1)[0]
+            if key in keys:
+                continue
+            keys.add(key)
+            members.append(member)
+        content: str = ', '.join(members)
         return f'{{ {content} }}'
 
     def __str__(self) -> str:
